@@ -6,6 +6,9 @@ import vlib
 def run(ctx):
     ctx.assumptions = ["fake directive.Instance counts strong references", "goroutine order controlled by the verif gate at the start of the acquisition goroutine"]
     r = ctx.tlc("HoldOpen", cfg="MC_HoldOpen.cfg", timeout=300)
+    if ctx.tier == "thorough":
+        # unbounded safety: an inductive invariant of the same actions (any number of pending goroutines / reference ids), by Apalache
+        ctx.apalache("ind/HoldOpenInd", [("Init", "IndInv", 0), ("IndInit", "IndInv", 1), ("IndInit", "QuiescentRefs", 0)], cinit="ConstInit")
     maxlen = 6 if ctx.tier == "quick" else 8
     g = ctx.tlc("MC_HoldOpenGen", cfg="MC_HoldOpenGen.cfg", timeout=900, env={"MAXLEN": maxlen}, count=False)
     behs = []
@@ -22,7 +25,7 @@ def run(ctx):
         raise vlib.Infra("the verif scheduler gate in link/hold-open was never reached (hook missing): interleavings cannot be replayed")
     rows = rows[:-1]
     vlib.write_ndjson(tpath, rows)
-    ctx.traces += 2 * len(behs)
+    ctx.traces += sum(1 for x in rows if x["e"] == "reset")
     ctx.evaluations += sum(1 for x in rows if x["e"] == "q")
     for b in behs:
         # non-trivial: an acquisition goroutine is overtaken by a removal or by a second addition
